@@ -66,3 +66,27 @@ CHECKS["C03"] = {
     "outside": ["more than 3 tables", "tables longer than 54 bytes (uint32 offset arithmetic at large sizes)", "agreement with golang.org/x/image on whole fonts", "files written by the full font writer (covered per table by C11/C12/...)"],
     "assumptions": ["at least one non-nil table (header.Read rejects table-less files)", "tags are 4 printable ASCII characters"],
 }
+
+CHECKS["C09"] = {
+    "harnesses": [
+        H("cmap", "c09.go", "VerifH_C09_f4dec", ["accepted", "via glyphIdArray"],
+          quick={"params": {"maxarray": 2, "span": 1}, "timeout": 280},
+          thorough={"params": {"maxarray": 3, "span": 3}, "timeout": 2400}),
+        H("cmap", "c09.go", "VerifH_C09_f4enc", ["encoded"],
+          quick={"params": {"maxentries": 2}, "timeout": 280, "unwind": 70000},
+          thorough={"params": {"maxentries": 3, "lowwindow": 0}, "timeout": 2400, "unwind": 70000}),
+        H("cmap", "c09.go", "VerifH_C09_f12", ["decoded"],
+          quick={"params": {"maxentries": 3}, "timeout": 280},
+          thorough={"params": {"maxentries": 4}, "timeout": 2400}),
+        H("cmap", "c09.go", "VerifH_C09_f12dec", ["accepted"], quick={"timeout": 200}),
+        H("cmap", "c09.go", "VerifH_C09_f06", ["format0", "format6"], quick={"timeout": 200}),
+        H("cmap", "c09.go", "VerifH_C09_table", ["decoded"],
+          quick={"params": {"maxsub": 2}, "timeout": 280}, thorough={"params": {"maxsub": 3}, "timeout": 2400}),
+        H("cmap", "c09.go", "VerifH_C09_best", ["chosen"], quick={"timeout": 100}),
+    ],
+    "bounds": {"quick": "format 4 decode: arbitrary 2-segment subtables (36..40 bytes), spans <=2 codes, glyphIdArray <=2 words, symbolic query code; format 4 encode: maps of 1..2 entries with keys symbolic in [0xFFF8,0xFFFF] and symbolic non-zero 16-bit glyph ids, symbolic language and query code; format 12: 0..3 entries with symbolic keys <= 0x10FFFF; decodeFormat12 on <=2 arbitrary groups (span<=3); formats 0 and 6 on arbitrary bytes; Table with 1..2 subtables and symbolic keys; all 32 presence patterns of the GetBest candidates",
+               "thorough": "format 4 spans <=4, array 3 words, 3 map entries; format 12 with 4 entries; 3 subtables"},
+    "outside": ["format 4 maps with keys outside the 8-code window or more than 3 entries (dense maps near the 64 KiB limit)", "format 12 with more than 4 entries", "Mac Roman code translation of format 0/4/6 subtables (code2rune)", "x/image comparison"],
+    "assumptions": ["idRangeOffset values even; last segment ends at 0xFFFF (format requirement)", "lookups whose glyphIdArray address lies outside the subtable are undefined by the specification and excluded",
+                    "Format4 maps hold non-zero glyph ids (glyph 0 = unmapped)", "glyph ids above 0xFFFF in format 12 are not representable"],
+}
